@@ -436,6 +436,9 @@ def get_attr(I, obj, name):
             return obj.args[1]
         if name == 'msg' and obj.args:
             return obj.args[0]
+        if name == '__str__':
+            f = z3.Function('exc_str_method', z3.IntSort(), Val)
+            return VAny(f(obj.ecls if obj.ecls is not None else z3.IntVal(conc_oid_(obj))))
         raise Unsupported('exception attribute %s' % name)
     if isinstance(obj, VAny) and name == '__html__':
         used('getattr(any, "__html__") (uninterpreted; absent on None/bool/int/str/bytes/Token)')
@@ -876,6 +879,14 @@ def external(I, e, name, spec):
     args = [I.eval(a) for a in e.args]
     kwargs = {kw.arg: I.eval(kw.value) for kw in e.keywords if kw.arg is not None}
     short = spec.get('as', name.split('.')[-1])
+    if spec.get('exc_info'):
+        # sys.exc_info(): (class, instance, traceback) of the exception being handled
+        cur = I.ghost.get('handling') or []
+        if not cur:
+            return VTuple([NONE, NONE, NONE])
+        exc = cur[-1]
+        cls = VConc(exc.cls) if exc.cls is not None else VAny(Val.obj(exc.ecls))
+        return VTuple([cls, exc, VConc(('traceback', id(exc)))])
     if spec.get('function'):
         # a pure observation of the environment (e.g. os.path.exists): the same arguments give
         # the same answer for the duration of the call under verification
@@ -884,16 +895,34 @@ def external(I, e, name, spec):
                                            for a in args] + [sort_of(rty)]))
         return wrap(rty, f(*[unwrap(ty_of(a), a) if not isinstance(a, VToken) else a.s for a in args]))
     tr = I.ghost.setdefault('ext_trace', [])
-    rz = spec.get('raises', [])
+    rz = list(spec.get('raises', []))
+    if spec.get('raises_any'):
+        rz.append('*')
     outcome = I.path.choose(1 + len(rz), 'ext:%s' % short) if rz else 0
     rec = {'name': short, 'args': args, 'kwargs': kwargs, 'raised': outcome != 0}
     tr.append(rec)
+    for nm in spec.get('havoc', []):
+        # an object the callee may mutate: forget what is known about it
+        I.env[nm] = fresh(parse_ty(spec.get('havoc_type', 'map[str,any]')), 'havoc_' + nm)
+    if spec.get('raises_arg') is not None:
+        rec['raised'] = True
+        raise Raised(args[spec['raises_arg']])
     if outcome:
         import builtins as _b
-        raise Raised(VExc(getattr(_b, rz[outcome - 1]), []))
+        if rz[outcome - 1] == '*':
+            from .k3 import new_sym_exc
+            exc = new_sym_exc(I, fresh_name('exc_' + short))
+            rec['exc'] = exc
+            raise Raised(exc)
+        exc = VExc(getattr(_b, rz[outcome - 1]), [])
+        rec['exc'] = exc
+        raise Raised(exc)
     res = spec.get('result')
     if res is None:
         r = NONE
+    elif res == 'exception':
+        from .k3 import new_sym_exc
+        r = new_sym_exc(I, fresh_name('made_exc'))
     elif res.startswith('rec:'):
         r = VRec('ext::' + res[4:], {})
     else:
@@ -988,6 +1017,11 @@ def apply(I, fv, args, kwargs, callnode=None):
             return fresh(Ty('any'), 'handler_result')
         return I.ghost['k3'].external_call(I, fv, args, kwargs)
     raise Unsupported('call of %r' % (fv,))
+
+
+def conc_oid_(o):
+    from .values import conc_oid
+    return conc_oid(o)
 
 
 def sym_exc_isinstance(exc, classes):
